@@ -642,8 +642,9 @@ def _more_rules(chk, repo):
         chk.ob("INIT-1", "the state read from hardware is inverted for NC switches", ok, u.where(n.ast), detail=src(v),
                construct=u.ident, text="initial state " + short(v, 60))
         g = cu.guards_at(n.id)
-        ok = bool(g) and all((k.replace(" ", "") == "switch.platform!=platform" and v_ is False) or
-                                 (k.replace(" ", "") == "switch.platform==platform" and v_ is True) for k, v_ in g.items())
+        from sa.cfg import canon_set
+        cs = canon_set(g)
+        ok = bool(cs) and cs <= canon_set({"switch.platform == platform": True})
         chk.ob("INIT-1", "every switch of the platform being read is updated (only other platforms' switches are skipped)", ok,
                u.where(n.ast), detail="guards %s" % sorted(g.items()), construct=u.ident, text="initial state guard")
         hw = [x for x in ast.walk(v) if isinstance(x, ast.Subscript)]
